@@ -35,6 +35,11 @@ def make_A(B, n, kind, cplx):
         a = B.reals("a", (n,))
         B.assume_all([t > 0 for t in a])
         return ift.DiagonalOperator(field_of(dom, a)), np.diag(a), dom
+    if kind == "diag_fixed":
+        # a concrete positive diagonal: cheaper terms for runs with several iterations (rhs and start stay symbolic)
+        a = np.array([1.0, 3.0, 7.0][:n])
+        aa = a.astype(object) if B.mode == "sym" else a
+        return ift.DiagonalOperator(field_of(dom, aa)), np.diag(aa), dom
     if kind == "dense":
         # L L^H + diag(e), e > 0  (Hermitian positive definite by construction)
         l = B.values("l", (n, n), cplx)
@@ -221,6 +226,8 @@ def scenarios(tier, seed):
             (thorough if heavy else quick).append(("cg", dict(base, ctrl=ctrl, limit=limit)))
     # recomputed residual every step / every second step
     quick.append(("cg", dict(base, ctrl="gradnorm_abs", limit=2, nreset=1)))
+    # a reset step FOLLOWED by an ordinary step (the recomputed residual must be the one of the new position); ~7 min
+    thorough.append(("cg", dict(base, n=3, kind="diag_fixed", ctrl="gradnorm_abs", limit=3, nreset=2)))
     thorough.append(("cg", dict(base, ctrl="gradnorm_abs", limit=3, nreset=1)))
     thorough.append(("cg", dict(base, ctrl="gradnorm_abs", limit=3, nreset=2)))
     quick.append(("cg", dict(base, ctrl="gradnorm_abs", limit=2, level=2)))
